@@ -454,6 +454,8 @@ class World(object):
             self.callback_log.append((end, tag, bool(success), self.vt.now))
             for m in self.monitors:
                 m.on_callback(self, end, tag, bool(success))
+        cb.tag = tag
+        cb.end = end
         return cb
 
     def start_blackhole(self, direction, ticks, larger_than):
